@@ -73,7 +73,11 @@ func (a *recAggr) Report(s core.Sample) {
 	a.mu.Unlock()
 	// like the real aggregators: a handled sample goes back to the pool it was borrowed from, so the guns of the
 	// run meet recycled samples (a field a gun forgets to set then carries another request's value)
-	coreutil.ReturnSampleIfBorrowed(s)
+	if ns, ok := s.(*netsample.Sample); ok {
+		netsample.VerifRelease(ns)
+	} else {
+		coreutil.ReturnSampleIfBorrowed(s)
+	}
 }
 
 func (a *recAggr) Samples() []recSample {
